@@ -34,6 +34,8 @@ type op struct {
 	obj     uintptr    // identity of the object touched (for the "threads met" statistic and the clocks)
 	objs    []uintptr  // select: every channel of the statement
 	harness bool       // a harness thread waiting for something it observes from outside
+	hot     bool       // a plain access at a site known to race (a scheduling point because of that)
+	lazy    bool       // may run at any time but the deterministic scheduler never prefers it: running it early costs one deviation, so "this happens at ANY instant" is covered by deviation bound 1
 }
 
 type thread struct {
@@ -51,6 +53,8 @@ type Point struct {
 	N      int  // number of alternatives at this point
 	Choice int  // alternative taken (0 = the deterministic scheduler's own choice)
 	Kind   byte // 't' which thread runs, 'a' which ready select arm, 'e' environment answer
+	Hot    bool // a thread is at, or the running thread has just made, a plain access known to race
+	Lazy   int  // alternatives >= Lazy are lazy threads (N if none)
 }
 
 type Sched struct {
@@ -215,10 +219,15 @@ func Run(main func(), prefix []int, horizon int, envSince bool, observer func(st
 		polled := s.cur != nil && s.lastOp != nil && s.lastOp.poll
 		curEnabled := false
 		var held *thread
+		var lazies []*thread
 		for _, t := range s.threads {
 			if !t.done && t.op.enabled() {
 				if t.id == DelayThread && s.Steps < DelayUntil {
 					held = t
+					continue
+				}
+				if t.op.lazy {
+					lazies = append(lazies, t)
 					continue
 				}
 				if t == s.cur {
@@ -255,6 +264,7 @@ func Run(main func(), prefix []int, horizon int, envSince bool, observer func(st
 			}
 			order = append(append(after, before...), s.cur)
 		}
+		order = append(order, lazies...) // last: taken by default only when nothing else can run
 		if len(order) == 0 {
 			break
 		}
@@ -265,8 +275,19 @@ func Run(main func(), prefix []int, horizon int, envSince bool, observer func(st
 		c := 0
 		if len(order) > 1 {
 			c = s.next(len(order), 't')
+			pt := &s.Trace[len(s.Trace)-1]
+			pt.Lazy = len(order) - len(lazies)
+			pt.Hot = s.lastOp != nil && s.lastOp.hot
+			for _, t := range order {
+				if t.op.hot {
+					pt.Hot = true
+				}
+			}
 		}
 		t := order[c]
+		if c != 0 {
+			Log("  [deviation at step %d: %s(%s) runs instead of %s(%s)]", s.Steps, t.name, t.op.kind, order[0].name, order[0].op.kind)
+		}
 		if t.op.nalt != nil {
 			if n := t.op.nalt(); n > 1 {
 				kind := byte('a')
@@ -376,6 +397,16 @@ func WaitStep(kind string, k int) {
 	}
 	s := S
 	point(&op{kind: kind, enabled: func() bool { return s.Steps >= k }, idle: true, harness: true})
+}
+
+// WaitLazy parks the calling harness thread until the explorer chooses to run it (one deviation,
+// at any scheduling point) or nothing else can run.
+func WaitLazy(kind string) {
+	if S == nil {
+		time.Sleep(2 * time.Millisecond)
+		return
+	}
+	point(&op{kind: kind, enabled: alwaysEnabled, lazy: true, harness: true})
 }
 
 // WaitUntil parks the calling harness thread until cond holds.
@@ -610,19 +641,21 @@ type integer interface {
 // PlainInc is what a non-atomic x.f++ really is: a load and a store that another thread can
 // come between.
 func PlainInc[T integer](p *T, site ...string) {
-	point(&op{kind: "plain-load", enabled: alwaysEnabled, obj: uintptr(unsafe.Pointer(p))})
+	hot := len(site) > 0 && Promoted[site[0]]
+	point(&op{kind: "plain-load", enabled: alwaysEnabled, obj: uintptr(unsafe.Pointer(p)), hot: hot})
 	plainAccess(unsafe.Pointer(p), unsafe.Sizeof(*p), false, site)
 	x := *p
-	point(&op{kind: "plain-store", enabled: alwaysEnabled, obj: uintptr(unsafe.Pointer(p))})
+	point(&op{kind: "plain-store", enabled: alwaysEnabled, obj: uintptr(unsafe.Pointer(p)), hot: hot})
 	plainAccess(unsafe.Pointer(p), unsafe.Sizeof(*p), true, site)
 	*p = x + 1
 }
 
 func PlainDec[T integer](p *T, site ...string) {
-	point(&op{kind: "plain-load", enabled: alwaysEnabled, obj: uintptr(unsafe.Pointer(p))})
+	hot := len(site) > 0 && Promoted[site[0]]
+	point(&op{kind: "plain-load", enabled: alwaysEnabled, obj: uintptr(unsafe.Pointer(p)), hot: hot})
 	plainAccess(unsafe.Pointer(p), unsafe.Sizeof(*p), false, site)
 	x := *p
-	point(&op{kind: "plain-store", enabled: alwaysEnabled, obj: uintptr(unsafe.Pointer(p))})
+	point(&op{kind: "plain-store", enabled: alwaysEnabled, obj: uintptr(unsafe.Pointer(p)), hot: hot})
 	plainAccess(unsafe.Pointer(p), unsafe.Sizeof(*p), true, site)
 	*p = x - 1
 }
@@ -642,6 +675,7 @@ var DelayThread, DelayUntil = -1, 0
 
 // TimerRelease, when set, delays every timer thread until the scheduler has executed that
 // many steps: the instant at which "time is up" is an enumerated dimension of a scenario.
+// Negative: timers are lazy threads (any instant, one deviation each).
 var TimerRelease int
 
 func AfterFunc(d time.Duration, f func()) *Timer {
@@ -665,6 +699,9 @@ func AfterFunc(d time.Duration, f func()) *Timer {
 		}
 	})
 	th.op = &op{kind: "timer", enabled: func() bool { return s.Steps >= rel }, idle: true}
+	if rel < 0 {
+		th.op = &op{kind: "timer", enabled: alwaysEnabled, lazy: true} // fires at any instant the explorer chooses
+	}
 	return t
 }
 
